@@ -126,7 +126,7 @@ FlatOpt(S) ==
 OptUnion(u, e) ==
   LET fo    == FlatOpt(Members(u))
       hasOptMember == fo.opt
-      ms    == fo.ms
+      ms    == Members(DUnionCtor(fo.ms))        \* items = DUnion(*items).types: one literal set (or str), no duplicates
       objs  == {t \in ms : t.k = "obj"}
       strs  == {t \in ms : (t.k = "pseudo" /\ t.n \in ToSet(e.reg)) \/ t = TStr}
       lists == {t \in ms : t.k = "list"}
